@@ -75,7 +75,7 @@ def case_strategy(draw, sub):
     if maybe(3):
         o["nextseq"] = draw(st.sampled_from([5, 10, 20, 0]))
     if maybe():
-        o["q1_arg"] = draw(st.sampled_from(["5", "10", "15", "20", "3,7", "10,10", "0,12", "12,0", "0"]))
+        o["q1_arg"] = draw(st.sampled_from(["5", "10", "15", "20", "3,7", "10,10", "0,12", "12,0"]))
     if paired and maybe(3):
         o["q2_arg"] = draw(st.sampled_from(["7", "18", "4,9", "11,2"]))
     if maybe():
